@@ -1,0 +1,90 @@
+//go:build verif
+
+// Contracts for the verification machinery in /verif (comment only).
+package ingress
+
+/*@ theory ingressfilters
+;; theory filters k8s
+;; uses networking/v1beta1.IngressSpec networking/v1beta1.IngressRule networking/v1beta1.IngressRuleValue networking/v1beta1.HTTPIngressPath networking/v1beta1.IngressBackend
+(declare-fun |F!networking/v1beta1.Ingress!Spec| (V) |S!networking/v1beta1.IngressSpec|)
+(declare-fun |F!networking/v1beta1.IngressBackend!ServiceName| (V) Str)
+(declare-fun |F!networking/v1beta1.HTTPIngressRuleValue!Paths| (V) (Slice |S!networking/v1beta1.HTTPIngressPath|))
+(define-sort IPath () |S!networking/v1beta1.HTTPIngressPath|)
+(define-sort IRule () |S!networking/v1beta1.IngressRule|)
+(define-fun ing-be ((i V)) V (|networking/v1beta1.IngressSpec.Backend| (|F!networking/v1beta1.Ingress!Spec| i)))
+(define-fun ing-rules ((i V)) (Slice IRule) (|networking/v1beta1.IngressSpec.Rules| (|F!networking/v1beta1.Ingress!Spec| i)))
+(define-fun rule-http ((r IRule)) V (|networking/v1beta1.IngressRuleValue.HTTP| (|networking/v1beta1.IngressRule.IngressRuleValue| r)))
+(define-fun http-paths ((h V)) (Slice IPath) (|F!networking/v1beta1.HTTPIngressRuleValue!Paths| h))
+(define-fun path-svc ((p IPath)) Str (|networking/v1beta1.IngressBackend.ServiceName| (|networking/v1beta1.HTTPIngressPath.Backend| p)))
+; C19: the services an ingress names as backends: its default backend and the backend of every path of every HTTP rule
+(define-fun isDefaultBackend ((i V) (n Str)) Bool (and (not (= (ing-be i) vnil)) (= (|F!networking/v1beta1.IngressBackend!ServiceName| (ing-be i)) n)))
+; path p of rule r (which has an HTTP section) names n
+(define-fun pathNames ((i V) (r Int) (p Int) (n Str)) Bool
+  (and (<= 0 r) (< r (slen (ing-rules i))) (not (= (rule-http (select (sarr (ing-rules i)) r)) vnil))
+       (<= 0 p) (< p (slen (http-paths (rule-http (select (sarr (ing-rules i)) r)))))
+       (= (path-svc (select (sarr (http-paths (rule-http (select (sarr (ing-rules i)) r)))) p)) n)))
+(define-fun isBackend ((i V) (n Str)) Bool
+  (and (not (= n |str!|)) (or (isDefaultBackend i n) (exists ((r Int) (p Int)) (pathNames i r p n)))))
+; an id produced for ingress i: its namespace and one of its backends (kept opaque for the loop proofs)
+(declare-fun idOK (V NSN) Bool)
+(assert (forall ((i V) (id NSN)) (! (= (idOK i id) (and (= (nsn-ns id) (obj-ns i)) (isBackend i (nsn-name id)))) :pattern ((idOK i id)))))
+@*/
+
+/*@ func types/ingress.buildServicesFilter
+  props C19
+  theory ingressfilters
+  requires (not (= {ing} vnil))
+  ghost kind : (Array Int Int) := ((as const (Array Int Int)) 0)
+  ghost ruleOf : (Array Int Int) := ((as const (Array Int Int)) 0)
+  ghost pathOf : (Array Int Int) := ((as const (Array Int Int)) 0)
+  ghost whereIs : (Array Str Int) := ((as const (Array Str Int)) (- 1))
+  at append(ids)#1 set whereIs := (store whereIs (nsn-name $elem) (slen {ids}))
+  at append(ids)#2 set kind := (store kind (slen {ids}) 1)
+  at append(ids)#2 set ruleOf := (store ruleOf (slen {ids}) {rangeindex@1})
+  at append(ids)#2 set pathOf := (store pathOf (slen {ids}) {rangeindex@2})
+  at append(ids)#2 set whereIs := (store whereIs (nsn-name $elem) (slen {ids}))
+
+  loop 1 inv [range] (and (<= 0 (+ {rangeindex@1} 1)) (<= (+ {rangeindex@1} 1) (slen (ing-rules {ing}))))
+  loop 1 inv [every-id-is-a-backend-found-so-far] (forall ((q Int)) (=> (and (<= 0 q) (< q (slen {ids})))
+        (let ((id (select (sarr {ids}) q)))
+          (and (= (nsn-ns id) (obj-ns {ing})) (not (= (nsn-name id) |str!|))
+               (ite (= (select kind q) 0) (isDefaultBackend {ing} (nsn-name id))
+                    (and (< (select ruleOf q) (+ {rangeindex@1} 1)) (pathNames {ing} (select ruleOf q) (select pathOf q) (nsn-name id))))))))
+  loop 1 inv [every-backend-found-so-far-has-an-id] (forall ((n Str)) (=> (and (not (= n |str!|))
+        (or (isDefaultBackend {ing} n) (exists ((r Int) (p Int)) (and (< r (+ {rangeindex@1} 1)) (pathNames {ing} r p n)))))
+        (and (<= 0 (select whereIs n)) (< (select whereIs n) (slen {ids})) (= (select (sarr {ids}) (select whereIs n)) (|mk!nsname.NSName| (obj-ns {ing}) n)))))
+
+  loop 2 inv [range] (and (<= 0 {rangeindex@1}) (< {rangeindex@1} (slen (ing-rules {ing})))
+        (= {http} (rule-http (select (sarr (ing-rules {ing})) {rangeindex@1}))) (not (= {http} vnil))
+        (<= 0 (+ {rangeindex@2} 1)) (<= (+ {rangeindex@2} 1) (slen (http-paths {http}))))
+  loop 2 inv [every-id-is-a-backend-found-so-far] (forall ((q Int)) (=> (and (<= 0 q) (< q (slen {ids})))
+        (let ((id (select (sarr {ids}) q)))
+          (and (= (nsn-ns id) (obj-ns {ing})) (not (= (nsn-name id) |str!|))
+               (ite (= (select kind q) 0) (isDefaultBackend {ing} (nsn-name id))
+                    (and (or (< (select ruleOf q) {rangeindex@1}) (and (= (select ruleOf q) {rangeindex@1}) (< (select pathOf q) (+ {rangeindex@2} 1))))
+                         (pathNames {ing} (select ruleOf q) (select pathOf q) (nsn-name id))))))))
+  loop 2 inv [every-backend-found-so-far-has-an-id] (forall ((n Str)) (=> (and (not (= n |str!|))
+        (or (isDefaultBackend {ing} n)
+            (exists ((r Int) (p Int)) (and (or (< r {rangeindex@1}) (and (= r {rangeindex@1}) (< p (+ {rangeindex@2} 1)))) (pathNames {ing} r p n)))))
+        (and (<= 0 (select whereIs n)) (< (select whereIs n) (slen {ids})) (= (select (sarr {ids}) (select whereIs n)) (|mk!nsname.NSName| (obj-ns {ing}) n)))))
+
+  ensures [ids-are-backends-of-this-ingress] (forall ((q Int)) (=> (and (<= 0 q) (< q (slen result))) (idOK {ing} (select (sarr result) q))))
+  ensures [every-backend-has-an-id] (forall ((n Str)) (=> (isBackend {ing} n)
+        (exists ((q Int)) (and (<= 0 q) (< q (slen result)) (= (select (sarr result) q) (|mk!nsname.NSName| (obj-ns {ing}) n))))))
+@*/
+
+/*@ func types/ingress.ServicesFilter
+  props C19 C17
+  theory ingressfilters
+  requires [ingresses-valid] (forall ((j Int)) (=> (and (<= 0 j) (< j (slen {ingresses})))
+        (and (not (= (select (sarr {ingresses}) j) vnil)) (not (= (obj-ns (select (sarr {ingresses}) j)) |str!|)))))
+  loop 1 inv [range] (and (<= 0 (+ {rangeindex} 1)) (<= (+ {rangeindex} 1) (slen {ingresses})))
+  loop 1 inv [every-id-is-a-backend-of-some-ingress-seen] (forall ((q Int)) (=> (and (<= 0 q) (< q (slen {ids})))
+        (exists ((j Int)) (and (<= 0 j) (< j (+ {rangeindex} 1)) (idOK (select (sarr {ingresses}) j) (select (sarr {ids}) q))))))
+  loop 1 inv [every-backend-of-every-ingress-seen-has-an-id] (forall ((j Int) (n Str)) (=> (and (<= 0 j) (< j (+ {rangeindex} 1)) (isBackend (select (sarr {ingresses}) j) n))
+        (exists ((q Int)) (and (<= 0 q) (< q (slen {ids})) (= (select (sarr {ids}) q) (|mk!nsname.NSName| (obj-ns (select (sarr {ingresses}) j)) n))))))
+  ensures [is-nsname] (and (not (= result vnil)) (= (dyntype result) |ty!filter.nsNameFilter|))
+  ensures [exactly-the-services-named-by-an-ingress-of-the-same-namespace] (forall ((o V)) (= (accept result o)
+        (exists ((j Int)) (and (<= 0 j) (< j (slen {ingresses})) (= (obj-ns o) (obj-ns (select (sarr {ingresses}) j)))
+                               (isBackend (select (sarr {ingresses}) j) (obj-name o))))))
+@*/
